@@ -87,6 +87,20 @@ Example C13_divider_with_another_salt_is_output :
   split_outputs [115] (ideal [115] 0 [(spoof, 0%Z)]) = Some [(spoof, 0%Z)]
   /\ parse_salted [115] spoof = NotFound /\ parse_divider spoof = Found [] 0 0%Z.
 Proof. cbv zeta. repeat split; vm_compute; reflexivity. Qed.
+(* ... and that is a theorem: the payloads may hold the divider prefix, even whole divider lines of another execution; only
+   the needle of THIS execution (prefix, salt, `::`) must not occur in them (the salt holds no `~`, `:` or line feed: it is
+   alphanumeric).  The needle is not a constant, its freedom from self-overlap is proved from that of the prefix. *)
+From SV Require Import ScriptExecSalted.
+Theorem C13_divider_split_salted : forall salt outs i, salt_plain salt -> Forall (payload_salted salt) outs ->
+  i + N.of_nat (length outs) <= 18446744073709551616 ->
+  iterate salt (split_lines (ideal salt i outs)) [] i = Some outs.
+Proof. exact split_ideal_salted. Qed.
+Theorem C13_divider_needle_never_straddles : forall salt t r, salt_plain salt ->
+  (0 < length t)%nat -> (length t < length (needle salt))%nat -> starts (needle salt) (t ++ needle salt ++ r) = false.
+Proof. intros salt t r H. exact (needle_no_overlap salt H t r). Qed.
+Check payload_ok_salted : forall salt pc, payload_ok pc -> payload_salted salt pc.      (* the former premise implies the new one *)
+Print Assumptions C13_divider_split_salted.
+Print Assumptions C13_divider_needle_never_straddles.
 Example C13_divider_instance :          (* two test cases: "a\nb" without final newline and exit code 3, then nothing and 0 *)
   split_outputs [115; 65; 55] (ideal [115; 65; 55] 0 [([97; 10; 98], 3%Z); ([], 0%Z)]) = Some [([97; 10; 98], 3%Z); ([], 0%Z)].
 Proof. vm_compute. reflexivity. Qed.
